@@ -126,19 +126,21 @@ EmbedBlocks(inst, eb) ==
 \* ------------------------------------------------------------------ laws (checked as one TLC invariant per state)
 Laws(inst, E) ==
   \* composition then marginalisation = two marginalisations (Chapman-Kolmogorov)
-  /\ E.z_mean = E.z_mean_via_merge /\ E.z_cov = E.z_cov_via_merge
+  /\ VEq(E.z_mean, E.z_mean_via_merge) /\ MEq(E.z_cov, E.z_cov_via_merge)
   /\ IsSymmetric(E.marg_cov) /\ IsSymmetric(E.z_cov) /\ IsSymmetric(E.post_cov)
   \* law of total variance: Cov(E[x|y]) + Cov(x|y) = Cov(x)
-  /\ E.total_var = E.P
+  /\ MEq(E.total_var, E.P)
 
 \* the structured models are their dense embeddings: every per-block result embeds to the dense result
 \* (dense evaluation of the embedded system uses cofactor inverses, so only for total size <= 4)
 LawEmbedding(inst, E) ==
   (Len(inst.blocks) * Len(inst.blocks[1].mx) <= 4 /\ Len(inst.blocks) > 1) =>
     LET ED == EvalDense(inst)
-    IN  /\ \A fld \in (MatFields \cup VecFields) \ {"post_mean", "post_cov", "total_var"} : ED[fld] = E[fld]
-        /\ ED.det = E.det
-        /\ E.invertible => (ED.invertible /\ ED.post_mean = E.post_mean /\ ED.post_cov = E.post_cov /\ ED.maha = E.maha)
+    IN  /\ \A fld \in MatFields \ {"post_cov", "total_var"} : MEq(ED[fld], E[fld])
+        /\ \A fld \in VecFields \ {"post_mean"} : VEq(ED[fld], E[fld])
+        /\ REqN(ED.det, E.det)
+        /\ (E.invertible /\ ~IsNaN(ED.det) /\ ~IsNaN(E.det)) =>
+              (ED.invertible /\ VEq(ED.post_mean, E.post_mean) /\ MEq(ED.post_cov, E.post_cov) /\ REqN(ED.maha, E.maha))
 
 \* rescaling the noise / the Cholesky factor by c scales covariances by c^2 and leaves means alone
 LawRescale(inst) ==
@@ -146,11 +148,10 @@ LawRescale(inst) ==
       b1 == inst.blocks[1]
       s  == EvalBlock(b1, ROne)
       s2 == EvalBlock([b1 EXCEPT !.LQ = MatScale(c, b1.LQ), !.LP = MatScale(c, b1.LP), !.LQ2 = MatScale(c, b1.LQ2)], ROne)
-  IN /\ s2.marg_mean = s.marg_mean
-     /\ s2.marg_cov = MatScale(RMul(c, c), s.marg_cov)
-     /\ s2.marg_cov = EvalBlock([b1 EXCEPT !.tl = b1.tl], c).resc_marg_cov
-           \/ b1.LP # MZero(Len(b1.mx), Len(b1.mx))       \* rescale_noise alone only scales Q
-     /\ (s.invertible /\ c # RZero) => (s2.post_mean = s.post_mean /\ s2.post_cov = MatScale(RMul(c, c), s.post_cov))
+  IN /\ VEq(s2.marg_mean, s.marg_mean)
+     /\ MEq(s2.marg_cov, MatScale(RMul(c, c), s.marg_cov))
+     /\ (s.invertible /\ c # RZero /\ ~IsNaN(s.det) /\ ~IsNaN(s2.det)) =>
+           (VEq(s2.post_mean, s.post_mean) /\ MEq(s2.post_cov, MatScale(RMul(c, c), s.post_cov)))
 
 CheckAndPrint ==
   LET inst == Instances[i]
@@ -159,7 +160,9 @@ CheckAndPrint ==
   IN  /\ Laws(inst, E)
       /\ LawEmbedding(inst, E)
       /\ LawRescale(inst)
-      /\ PrintT("@@EXP " \o ToJson([i |-> i, e |-> [dense |-> E,
+      /\ PrintT("@@EXP " \o ToJson([i |-> i,
+             nan |-> ((\E fld \in MatFields : MatNaN(E[fld])) \/ (\E fld \in VecFields : VecNaN(E[fld])) \/ IsNaN(E.maha) \/ IsNaN(E.det)),
+             e |-> [dense |-> E,
              block_maha |-> Vec(D(inst), LAMBDA a : eb[a].maha),
              block_inv  |-> Vec(D(inst), LAMBDA a : eb[a].invertible),
              block_det  |-> Vec(D(inst), LAMBDA a : eb[a].det),
